@@ -399,4 +399,34 @@ CHECKS = {
                "(triangular-fill theorem, clamp, exact-zero lemma) + "
                "bit-exact vm_compute correspondence + closed-form search",
  },
+ "C18": {
+  "text": "Theorems (every n, every network, every pseudo-inverse R with "
+          "R L = L R = I - J/n): effective resistance R_aa - R_ab - R_ba + "
+          "R_bb is symmetric, zero on the diagonal, equals the potential drop "
+          "of ANY solution of Kirchhoff's equations for a unit current (hence "
+          "does not depend on which pseudo-inverse was computed), scales "
+          "linearly with the resistances (Laplacian / k, pseudo-inverse * k); "
+          "series and parallel laws for all non-zero symbolic resistances; "
+          "Foster's theorem (sum of conductance * effective resistance over "
+          "ordered pairs = 2(n-1)). The two C current-flow routines, "
+          "regenerated from src_numerics.c as Gallina sums, equal the "
+          "defining sums for every N; the state machine with the "
+          "update_R-resets flag read from the source answers every query "
+          "after any history of updates from the current resistances "
+          "(refuted with a witness when the flag is off). Not proved "
+          "(search only): triangle inequality, Rayleigh path bound, "
+          "positivity. Correspondence inside Coq: the pinv specification on "
+          "exact Fractions inverses, both C routines on the binary32 arrays "
+          "they receive, histories of update / average / diameter / eff.",
+  "design_ref": "DESIGN.md section 5, C18",
+  "note": "trusted: translator c_resistive.py (regex skeleton + ast "
+          "expressions, fail-closed); numpy.linalg.pinv is tied to the "
+          "is_pinv specification only numerically (1e-8) per instance; "
+          "double accumulation in C is compared at 1e-8 / 1e-6",
+  "technique": "Coq proofs (sum algebra over Qc: potential-drop "
+               "characterisation, Foster, scaling; C routines regenerated "
+               "and proved equal to the definitions; invariant by induction "
+               "over histories) + vm_compute correspondence + exact-"
+               "Fractions Kirchhoff reference search",
+ },
 }
